@@ -1,5 +1,6 @@
 import Dhcp.Driver.Hex
 import Dhcp.Client.Timed
+import Dhcp.Driver.ClientLTS
 /-
   Line-protocol operations of the `Client` family.
 
@@ -11,6 +12,9 @@ import Dhcp.Client.Timed
       `s` = applied after quiescence, `n` = applied right away.
       Output: `ok <alt> | <alt> | …`, every result the model allows, each
       `tx=<t,…|-> ret=<t>:<resp<i>|noresp|ctx>|running close=<t|->`.
+
+  `client4m|client6m …`: multi-caller scenarios on the interleaving model, see
+  Dhcp/Driver/ClientLTS.lean.
 -/
 namespace Dhcp.Driver
 open Dhcp.Client
@@ -66,6 +70,6 @@ def stepTimed (args : List String) : Option String := do
 def stepClient (op : String) (args : List String) : Option String :=
   match op with
   | "client4" | "client6" => stepTimed args
-  | _ => none
+  | _ => stepClientLTS op args
 
 end Dhcp.Driver
